@@ -635,7 +635,9 @@ pub fn search(r: &R, ngroups: usize, text: &str, from: usize, skipped: bool, bud
             endp = p;
             true
         }) {
-            let start = st.keep.unwrap_or(s).min(endp);
+            // rule 5: `\K` moves the reported start; it is capped to the end, and a match never
+            // starts before the search offset (`\K` inside a look-behind could point there)
+            let start = st.keep.unwrap_or(s).min(endp).max(from);
             st.caps[0] = Some((start, endp));
             return (Out::Match(st.caps), m.steps);
         }
